@@ -215,6 +215,8 @@ class dns(packet_base):
             if at == -1:
               if post in name_map:
                 at = name_map[post]
+            if at >= 0x4000:
+              at = -1 # A compression pointer holds a 14 bit offset
             if at == -1:
               post = post.split('.', 1)
               if pre: pre += '.'
@@ -380,7 +382,7 @@ class dns(packet_base):
             # check whether we have an internal pointer
             if (chunk_size & 0xc0) == 0xc0:
                 # pull out offset from last 14 bits
-                offset = ((l[index] & 0x3) << 8 ) | l[index+1]
+                offset = ((l[index] & 0x3f) << 8 ) | l[index+1]
                 cls._read_dns_name_from_index(l, offset, retlist)
                 index += 1
                 break
